@@ -228,6 +228,35 @@ def rule_fwd(ctx, rep):
             defs0 = B.defs().get(0, [])
             if defs0 and all(d[0] == "call" and d[2].get("callee_trait") in ("core::ops::function::FnOnce", "core::ops::function::FnMut", "core::ops::function::Fn") for d in defs0):
                 forwarding.add(b["key"])
+        # ... or hand their own callable parameter on to such a body and return its result (`with_arc` built on a shared
+        # `with_transient(owner, f)` helper)
+        grew = True
+        while grew:
+            grew = False
+            for b in F.body_list:
+                if b["key"] in forwarding:
+                    continue
+                B = cfg.Body(b)
+                defs0 = B.defs().get(0, [])
+                if not defs0:
+                    continue
+                ok_all = True
+                for d in defs0:
+                    if d[0] != "call":
+                        ok_all = False
+                        break
+                    r = d[2].get("resolved")
+                    if not (isinstance(r, dict) and r["def"] in forwarding):
+                        ok_all = False
+                        break
+                    # one of the generic arguments is this body's own (callable) type parameter
+                    own_params = set(F.ty(p["self"])["name"] for p in b.get("preds", []) if p.get("kind") == "trait" and p.get("trait") in ("core::ops::function::FnOnce", "core::ops::function::FnMut", "core::ops::function::Fn") and F.ty(p["self"])["k"] == "param")
+                    if not any("t" in a and F.ty(F.strip_refs(a["t"]))["k"] == "param" and F.ty(F.strip_refs(a["t"]))["name"] in own_params for a in r["args"]):
+                        ok_all = False
+                        break
+                if ok_all:
+                    forwarding.add(b["key"])
+                    grew = True
         changed = True
         reasons = {}
         while changed:
